@@ -121,8 +121,8 @@ func basePoints(r *rand.Rand, class string, n int, jitterBoost float64) ([]pt, f
 			ph := r.Float64() * 2 * math.Pi
 			for i := 0; i < m; i++ {
 				a := r.Float64() * 2 * math.Pi
-				if regular {
-					a = ph + 2*math.Pi*float64(i)/float64(m)
+				if regular { // angular jitter too: radial jitter alone leaves centre and opposite points collinear
+					a = ph + 2*math.Pi*(float64(i)+jit*(2*r.Float64()-1))/float64(m)
 				}
 				rr := rad * (1 + jit*(2*r.Float64()-1))
 				P = append(P, pt{ctr.x + rr*math.Cos(a), ctr.y + rr*math.Sin(a)})
